@@ -6,6 +6,7 @@
 
 pub mod collections;
 pub mod exec;
+mod pool;
 pub mod prng;
 pub mod sync;
 pub mod thread;
